@@ -417,6 +417,7 @@ fn run_ops_on(plan: &Plan, shared: &Rc<Vec<u8>>, st: &Stream) -> RunRec {
         let mut cfg = plan.cfg;
         let mut last_name: Vec<u8> = b"a".to_vec();
         let mut last_pos = 0u64;
+        let mut terminal: Option<usize> = None;
         for (i, op) in plan.ops.iter().enumerate() {
             log.borrow_mut().cur_op = i as u32;
             let out = match op {
@@ -429,14 +430,20 @@ fn run_ops_on(plan: &Plan, shared: &Rc<Vec<u8>>, st: &Stream) -> RunRec {
                     apply_cfg(rd.config_mut(), cfg);
                     continue;
                 }
-                Op::Skip => match rd.skip(&last_name) {
-                    Ok(_) => Out::Ev(Event::Eof),
-                    Err(e) => Out::from_err(&e),
-                },
-                Op::ReadText => match rd.read_text(&last_name) {
-                    Some(Err(e)) => Out::from_err(&e),
-                    _ => Out::Ev(Event::Eof),
-                },
+                Op::Skip | Op::ReadText => {
+                    let r = if matches!(op, Op::Skip) { rd.skip(&last_name).map(|_| ()) } else { rd.read_text(&last_name).unwrap_or(Ok(String::new())).map(|_| ()) };
+                    match r {
+                        // (a successful skip is recorded as a pseudo outcome; it is not Eof)
+                        Ok(()) => Out::Raw(vec![]),
+                        Err(e) => {
+                            let o = Out::from_err(&e);
+                            if terminal.is_none() && matches!(o, Out::Err { class: crate::rd::ErrClass::Syntax, .. }) {
+                                terminal = Some(i);
+                            }
+                            o
+                        }
+                    }
+                }
                 Op::Raw { n, via } => {
                     // never ask for more than is certainly left: what a short read_exact
                     // consumes is not specified
@@ -456,7 +463,16 @@ fn run_ops_on(plan: &Plan, shared: &Rc<Vec<u8>>, st: &Stream) -> RunRec {
                             last_name = s.name().as_ref().to_vec();
                         }
                     }
-                    Out::from(r)
+                    let o = Out::from(r);
+                    // Eof is final, also across skips and configuration flips in between
+                    if let Some(t) = terminal {
+                        if !o.is_eof() {
+                            monitor.push(("eof-not-final".into(), format!("op {} returned {} after the terminal outcome of op {}", i, o.short(), t)));
+                        }
+                    } else if o.is_eof() || matches!(o, Out::Err { class: crate::rd::ErrClass::Syntax, .. }) {
+                        terminal = Some(i);
+                    }
+                    o
                 }
             };
             let pos = rd.pos();
